@@ -583,7 +583,12 @@ def main(argv=None):
         print(f'HARNESS-ERROR property={args.prop} import failed')
         return 2
 
-    ctx = Context(module, args.tier, seed)
+    try:
+        ctx = Context(module, args.tier, seed)
+    except Exception:
+        traceback.print_exc()
+        print(f'HARNESS-ERROR property={args.prop} context')
+        return 2
     if args.replay:
         path = args.replay
         if not os.path.isabs(path) and not os.path.exists(path):
@@ -663,4 +668,12 @@ def main(argv=None):
 
 
 if __name__ == '__main__':
-    sys.exit(main())
+    try:
+        rc = main()
+    except SystemExit:
+        raise
+    except BaseException:      # never let a harness crash look like exit 1
+        traceback.print_exc()
+        print('HARNESS-ERROR uncaught exception in the runner')
+        rc = 2
+    sys.exit(rc)
